@@ -268,6 +268,27 @@ func scenarioC19(c *RunCtx) {
 		}
 		checkSeries(c, y, "a synthetic series of large magnitude and small spread")
 		c.Count("probe.series.large_offset")
+		// a series its owner keeps updating in place between queries (the same backing array, the same length: a running
+		// window of results): every query must describe the contents of the moment
+		z := append(experiment.Floats(nil), x...)
+		for k := t.Range("inplace.rounds", 1, 3); k > 0; k-- {
+			checkSeries(c, z, "a series that is updated in place between queries")
+			switch t.Draw("inplace.kind", 3) {
+			case 0:
+				z[t.Draw("inplace.at", len(z))] = math.Round(rng.Norm()*1000) / 10
+			case 1:
+				for i, j := 0, len(z)-1; i < j; i, j = i+1, j-1 {
+					z[i], z[j] = z[j], z[i]
+				}
+				z[len(z)-1] += 1000
+			case 2:
+				for i := range z {
+					z[i] = -z[i] * 3
+				}
+			}
+		}
+		checkSeries(c, z, "a series that was updated in place between queries")
+		c.Count("probe.series.updated_in_place")
 	}
 
 	checkAggregates(c, exp, ctx)
